@@ -92,6 +92,9 @@ impl<P: Prefix, T> Iterator for IntoIter<P, T> {
 
     fn next(&mut self) -> Option<(P, T)> {
         while let Some(cur) = self.nodes.pop() {
+            // the owned arena is a plain `Vec`, so it does not tick by itself
+            #[cfg(feature = "verif-hooks")]
+            crate::verif_hooks::tick();
             let node = &mut self.table[cur];
             if let Some(right) = node.right {
                 self.nodes.push(right);
